@@ -13,8 +13,14 @@ class Conc:
         self.sn = {}
         self.sinv = {}
         for v in inst["nodes"]:
-            kind = state_kind if state_kind != "any" else rng.choice(["str", "int", "range", "tuple", "mixed"])
+            kind = state_kind
+            if state_kind == "any":
+                kind = rng.choice(["str", "int", "range", "perm", "tuple", "mixed"])
+            elif state_kind == "any_noperm":
+                kind = rng.choice(["str", "int", "range", "tuple", "mixed"])
             m = state_names(inst["states"][v], rng, kind)
+            self.kinds = getattr(self, "kinds", {})
+            self.kinds[v] = kind
             self.sn[v] = m
             self.sinv[v] = {c: t for t, c in m.items()}
         self.var_kind, self.state_kind = var_kind, state_kind
